@@ -837,7 +837,11 @@ fn create_archive(
         return Ok(());
     }
 
-    Ok(())
+    // The legacy batch compressor no longer exists: falling through here used to report success
+    // without writing any archive.
+    Err(anyhow::anyhow!(
+        "--batch (legacy batch mode) is not available in this build: no archive was written; omit --batch to use the streaming queue compressor"
+    ))
 }
 
 fn write_bin<P: AsRef<Path>>(path: P, data: &[u8]) -> Result<()> {
